@@ -55,6 +55,10 @@ def gen_cases():
     for timeout, timers, sources in itertools.product(["15", "120"], [[], ["40"]], [["adapteridle"], ["adapterclosed"], ["adapteridle", "adapterclosed", "ping"]]):
         cases.append(["case t%d" % i, "timeout " + timeout] + ["timer " + t for t in timers] + ["source " + s for s in sources] + ["end"])
         i += 1
+    # a bounded channel exactly full when it is processed: afterwards it is an idle source like any other
+    for timeout, cap in itertools.product(["15", "120"], ["1", "2", "5"]):
+        cases.append(["case t%d" % i, "timeout " + timeout, "dispatches 3", "source chanfull " + cap, "end"])
+        i += 1
     # sources with lifecycle hooks: a synthetic event returned by any before_sleep forces a non-blocking wait
     for timeout, sources in itertools.product(["120", "none"], [["lifesynth"], ["lifesynth", "lifequiet"], ["lifequiet", "lifesynth"],
                                                                   ["lifequiet", "lifesynth", "lifequiet"], ["lifequiet"]]):
@@ -90,7 +94,7 @@ def judge(case, trace):
     """-> (hard failures, wall-clock failures)"""
     hard, soft = [], []
     waker = next((int(l.split()[1]) for l in case if l.startswith("waker")), None)
-    has_closed = any("closed" in l for l in case)
+    has_closed = any("closed" in l or "chanfull" in l for l in case)
     for l in trace:
         if not l.startswith("disp "):
             continue
